@@ -17,7 +17,7 @@ MCPatterns == {%(patterns)s}
 ====
 """
 
-CFG = """SPECIFICATION Spec
+CFG = """SPECIFICATION %(spec)s
 CONSTANTS
   CRs = {1, 2, 3}
   Props = {1, 2}
@@ -48,6 +48,7 @@ CONSTANTS
   DupRule = %(dup)s
 VIEW view
 INVARIANTS TypeOK HistConsistent VotesSane MembersSane %(inv)s
+%(props)s
 %(emit)s
 CHECK_DEADLOCK FALSE
 """
@@ -62,13 +63,14 @@ def dup_rule_expected():
                    and k.get("status", "open") == "open" for k in vf.load_known())
 
 
-def cfg(scenario, kinds, steps, maxtx=2, rolls=1, rolldepth=3, emit="", inv=C29_INV, dup=None,
+def cfg(scenario, kinds, steps, maxtx=2, rolls=1, rolldepth=3, emit="", inv=C29_INV, dup=None, sim=False,
         budgets=("<<1, 2, 5>>", "<<2, 1, 1>>", "<<5, 5, 5>>"), patterns=("<<1, 1, 1>>", "<<2, 1, 0>>", "<<0, 1, 1>>")):
     d = dict(CONST)
     if dup is None:
         dup = dup_rule_expected()
     d.update(kinds=", ".join('"%s"' % k for k in kinds), scenario=scenario, steps=steps, maxtx=maxtx, rolls=rolls,
-             rolldepth=rolldepth, dup="TRUE" if dup else "FALSE", inv=inv,
+             rolldepth=rolldepth, dup="TRUE" if dup else "FALSE", inv=inv, spec="SimSpec" if sim else "Spec",
+             props="PROPERTIES CheckpointLossless" if "Checkpoint" in kinds else "",
              emit={"": "", "all": "ACTION_CONSTRAINT Emit", "last": "ACTION_CONSTRAINT EmitLast"}[emit])
     return CFG % d, {"MCCR.tla": MC % dict(budgets=", ".join(budgets), patterns=", ".join(patterns))}
 
@@ -99,3 +101,114 @@ def driver_cfg(preambles, dup=None):
     with open(p, "w") as f:
         json.dump(d, f)
     return p
+
+
+CR_KINDS = ["RegisterCR", "UpdateCR", "UnregisterCR", "VoteCR", "Claim", "ReturnDeposit"]
+PROP_KINDS = ["Proposal", "Review", "Reject", "Tracking", "Withdraw", "RealWithdraw", "Close"]
+
+
+def as_is_inv():
+    return C29_INV if dup_rule_expected() else "C29WithdrawnWasWithdrawable"
+
+
+class Session:
+    """One check run: TLC jobs (several at a time, 8 workers in total), the behaviours they print, the replay."""
+
+    def __init__(self, chk, binary=None):
+        self.chk = chk
+        self.rng = random.Random(vf.seed())
+        self.binary = binary or vf.go_build("crstate")
+        self.preambles = {}
+        self.behs = []          # (label, behaviours)
+        self.jobs = []
+
+    def job(self, label, scenario, kinds, steps, emit="", workers=1, simulate=None, limit=None, rolls=1, maxtx=2, timeout=1500,
+            rolldepth=3):
+        self.jobs.append(dict(label=label, scenario=scenario, kinds=kinds, steps=steps, emit=emit, workers=workers,
+                              simulate=simulate, limit=limit, rolls=rolls, maxtx=maxtx, timeout=timeout, rolldepth=rolldepth))
+
+    def _run(self, j):
+        text, files = cfg(j["scenario"], j["kinds"], j["steps"], maxtx=j["maxtx"], rolls=j["rolls"], emit=j["emit"],
+                          inv=as_is_inv(), rolldepth=j["rolldepth"], sim=bool(j["simulate"]))
+        name = "cr-%s.cfg" % re.sub(r"[^a-z0-9]+", "-", j["label"].lower())[:48]
+        r = vf.tlc("Gov", "MCCR", name, cfg_text=text, files=files, workers=j["workers"], timeout=j["timeout"],
+                   simulate=j["simulate"], depth=(j["steps"] + 40) if j["simulate"] else None,
+                   seed_arg=vf.seed() if j["simulate"] else None)
+        return j, r
+
+    def run_jobs(self, parallel=4):
+        import concurrent.futures
+        vf._copy_spec(os.path.join(vf.SPEC, "Gov"))       # once, before the threads
+        with concurrent.futures.ThreadPoolExecutor(max_workers=parallel) as ex:
+            results = list(ex.map(self._run, self.jobs))
+        self.jobs = []
+        for j, r in results:
+            vf.tlc_ok(r, j["label"])
+            self.chk.add_tlc(r, j["label"])
+            self.preambles[j["scenario"]] = preamble_of(r)
+            if j["emit"]:
+                behs, st = vf.behaviours(r, limit=j["limit"], rng=self.rng, per_class=max(4, (j["limit"] or 1000) // 60),
+                                         strat_key=strat)
+                st["label"] = j["label"]
+                self.chk.cov.setdefault("extraction", []).append(st)
+                self.behs.append((j["label"], behs))
+
+    def replay(self, sweep, shards=8, timeout=3000):
+        cfgp = driver_cfg(self.preambles)
+        allb = []
+        for label, behs in self.behs:
+            allb += behs
+        path = os.path.join(vf.scratch(), "crstate-behaviours.jsonl")
+        vf.write_json_lines(path, allb)
+        recs = vf.run_sharded(self.binary, lambda i, n: ["replay", cfgp, path, str(sweep), str(i), str(n)], shards=shards,
+                              timeout=timeout)
+        self.chk.absorb(recs, "replay of %d behaviours (rollback sweep level %d)" % (len(allb), sweep))
+        return cfgp, allb
+
+    def driver_once(self, cfgp, behs, sweep=1, env=None):
+        p = os.path.join(vf.scratch(), "crstate-selftest-%d.jsonl" % self.rng.randrange(1 << 30))
+        vf.write_json_lines(p, behs)
+        recs, _ = vf.run_driver(self.binary, ["replay", cfgp, p, str(sweep)], env=env, timeout=600)
+        return recs
+
+
+def strat(b):
+    """Classes for the stratified sample: the kinds of the last block (or Rollback)."""
+    last = b[-1]
+    if last.get("act") != "Block":
+        return last.get("act", "?")
+    ks = sorted(t.get("k", "?") + (":" + t["x"] if t.get("k") == "Tracking" else "") for t in last["args"]["txs"])
+    return "+".join(ks) or "empty"
+
+
+def rejected(recs):
+    return any(r.get("kind") in ("violation", "mismatch") for r in recs)
+
+
+def pick(behs, pred, rng):
+    c = [b for b in behs if pred(b)]
+    return json.loads(json.dumps(rng.choice(c))) if c else None
+
+
+ASSUMPTIONS = [
+    "bounds: 3 CR candidates/members (MemberCount 3, CRAgreementCount 2), 2 proposals with 3 budget stages (imprest, one normal "
+    "payment, final) from {<<1,2,5>>, <<2,1,1>>, <<5,5,5>>} units against a stage amount of 80 units (10% cap = 8), 2 owners, "
+    "2 stake addresses, <= 2 transactions per block; VotingPeriod 8, CRClaimPeriod 1, DutyPeriod 16, proposal voting periods 1, "
+    "DepositLockupBlocks 2, ActivateDuration 6 (code constant)",
+    "DPoS 2.0 rules from height 0 (Voting payloads, next-committee members, claim period); legacy TransferAsset vote outputs, "
+    "illegal/inactive evidence from the DPoS layer (TryUpdateCRMemberInactivity/Illegal, not history based), custom-ID, "
+    "side-chain, secretary-general and change-owner proposal types, CRAssetsRectify and ActivateProducer are not modelled",
+    "pairs of transactions in one block are explored when they concern the same proposal / CR / voter (where the per-block "
+    "rule matters); one Voting transaction per stake address per block",
+    "the real checkers (SpecialContextCheck) are run for CRCProposal, review, tracking, withdraw, real withdraw and "
+    "appropriation; RegisterCR/UpdateCR/UnregisterCR/Voting/ClaimNode/ReturnCRDeposit admission is the spec's transcription "
+    "of their checkers (they need the DPoS state) and is not compared with the real checkers",
+    "penalties are modelled only when they take a whole deposit (no block served / no proposal reviewed); ReturnDeposit is "
+    "explored only while the locked deposit of the model is not negative (the code can drive DepositAmount below zero when "
+    "an impeachment lands in the committee-change block; deposit accounting is another property)",
+    "reject / impeachment votes in units of 2,000,000 ELA against a threshold of 10% of ~33 M ELA circulation (1 unit below, "
+    "2 units at the threshold); the circulation formula itself is not modelled",
+    "start states are reached by fixed block sequences (first election, appropriation, one proposal taken to VoterAgreed, "
+    "second voting period) replayed on the real committee; rollbacks of the sweep reach into those blocks, RollbackTo(0) is "
+    "excluded (Committee.RollbackTo(0) does not terminate: uint32 loop bound)",
+]
